@@ -3,10 +3,10 @@ package main
 // C07 — rule priority is a strict weak order; the winner is never outranked.
 
 import (
-	"os"
 	"fmt"
 	"go/token"
 	"go/types"
+	"os"
 	"sort"
 	"strings"
 
